@@ -458,9 +458,16 @@ func (c connectStreamClientProtocol) encodeEnd(op *operation, end *responseEnd, 
 	length := buffer.Len()
 	limit := op.methodConf.maxMsgBufferBytes
 	if length > int(limit) {
-		return nil
+		// The stream must still be ended. Replace the oversized end with a small one
+		// that reports why, without metadata or details. It is written even if the
+		// limit is smaller than this fixed-size message.
+		buffer.Reset()
+		var limitErr *connect.Error
+		if errors.As(bufferLimitError(int64(limit)), &limitErr) {
+			_ = enc.Encode(&connectStreamEnd{Error: &connectWireError{Code: limitErr.Code(), Message: limitErr.Message()}})
+		}
 	}
-	env := envelope{trailer: true, length: uint32(buffer.Len())} //nolint:gosec // Length is validated above.
+	env := envelope{trailer: true, length: uint32(buffer.Len())} //nolint:gosec // Length is bounded by the limit or the fixed-size replacement.
 	envBytes := c.encodeEnvelope(env)
 	_, _ = writer.Write(envBytes[:])
 	_, _ = buffer.WriteTo(writer)
